@@ -612,6 +612,7 @@ package sod
 //@ ensures [fs.read-absent] imp(FSk[path] == 0, err != nil && isNotExist(err) && !isStorage(err))
 //@ ensures [fs.read-garbage] imp(FSk[path] == 2, err != nil && !isNotExist(err) && !isStorage(err))
 //@ ensures [fs.read-fault] imp(FSk[path] == 1, err == nil || (isStorage(err) && !isNotExist(err)))
+//@ ensures [fs.not-eoi] err != ErrEOI
 //@ modifies Object.content@vpay(i)
 
 //@ func writeReader
@@ -639,6 +640,7 @@ package sod
 //@ requires [wf] wfDBbase(db) && of != nil && !has(db.schemas, stypeOf(dyntype(of)))
 //@ requires [C08 locked] H >= 1 && SL == 2
 //@ requires [C09 lock-free] HS == 0 && HM == 0
+//@ ensures [load.not-eoi] err != ErrEOI
 //@ ensures [load.cached] (err == nil || errIs(err, ErrIndexCorrupted)) == has(db.schemas, stypeOf(dyntype(of)))
 //@ ensures [load.schema] imp(err == nil || errIs(err, ErrIndexCorrupted), s != nil && fresh(s) && db.schemas[stypeOf(dyntype(of))] == s && s.ObjectIndex.otype == dyntype(of) && s.coherent == (err == nil))
 //@ ensures [C10 load.flusher] imp((err == nil || errIs(err, ErrIndexCorrupted)) && asyncOn(s), s.AsyncWrites.routineStarted)
@@ -663,6 +665,7 @@ package sod
 //@ requires [C09 lock-free] SL == 0 && HS == 0 && HM == 0
 //@ ensures [C01 schema.ok] imp(err == nil, s != nil && has(db.schemas, stypeOf(dyntype(of))) && db.schemas[stypeOf(dyntype(of))] == s && s.ObjectIndex.otype == dyntype(of))
 //@ ensures [C01 schema.known] imp(old(has(db.schemas, stypeOf(dyntype(of)))), err == nil && s == old(db.schemas[stypeOf(dyntype(of))]))
+//@ ensures [C13 schema.not-eoi] err != ErrEOI
 //@ ensures [C01 schema.cached] has(db.schemas, stypeOf(dyntype(of))) == (old(has(db.schemas, stypeOf(dyntype(of)))) || err == nil || errIs(err, ErrIndexCorrupted))
 //@ ensures [C11 schema.coherent] imp(!old(has(db.schemas, stypeOf(dyntype(of)))) && has(db.schemas, stypeOf(dyntype(of))), db.schemas[stypeOf(dyntype(of))].coherent == (err == nil))
 //@ ensures [C10 schema.flusher] imp(err == nil && asyncOn(s), s.AsyncWrites.routineStarted)
@@ -701,9 +704,10 @@ package sod
 //@ ensures [C01 get.stored] imp(has(db.schemas, T) && db.schemas[T].coherent && has(db.schemas[T].ObjectIndex.uuids, u), (err == nil && out != nil && out.uuid == u && out.content == value(db, db.schemas[T], u)) || isStorage(err))
 //@ ensures [C01 get.absent] imp(has(db.schemas, T) && db.schemas[T].coherent && !has(db.schemas[T].ObjectIndex.uuids, u), err != nil && !isStorage(err))
 //@ ensures [C14 get.isolated] imp(err == nil && cacheOn(db.schemas[T]) && old(has(db.schemas, T) && cached(db, db.schemas[T], u)), fresh(out) && out != in)
+//@ ensures [C13 get.not-eoi] err != ErrEOI
 //@ ensures [C01 get.wf] wfDB(db)
 //@ ensures [C01 get.readonly] FSk == old(FSk) && FSc == old(FSc) && forallk(t, string, has(db.asyncw.m, t) == old(has(db.asyncw.m, t)) && db.asyncw.m[t] == old(db.asyncw.m[t]) && imp(has(db.asyncw.m, t), forallk(w, string, has(db.asyncw.m[t].m, w) == old(has(db.asyncw.m[t].m, w)) && db.asyncw.m[t].m[w] == old(db.asyncw.m[t].m[w]))))
-//@ ensures [C01 get.others] db.schemas == old(db.schemas) && forallk(t, string, imp(t != T, has(db.schemas, t) == old(has(db.schemas, t)) && db.schemas[t] == old(db.schemas[t]))) && imp(old(has(db.schemas, T)), db.schemas[T] == old(db.schemas[T]))
+//@ ensures [C01 get.others] db.schemas == old(db.schemas) && forallk(t, string, imp(t != T, has(db.schemas, t) == old(has(db.schemas, t)) && db.schemas[t] == old(db.schemas[t]))) && imp(old(has(db.schemas, T)), has(db.schemas, T) && db.schemas[T] == old(db.schemas[T]))
 //@ modifies MapDom[string,*Schema]@db.schemas, MapVal[string,*Schema]@db.schemas, MapCard[string,*Schema]@db.schemas, Async.routineStarted, Object.content@in, MapDom[string,*objectMap]@db.cache.m, MapVal[string,*objectMap]@db.cache.m, MapCard[string,*objectMap]@db.cache.m, MapDom[string,Object], MapVal[string,Object], MapCard[string,Object]
 //@ allocates Object.content, Object.uuid, objectMap.m, objectMap.RWMutex, Schema.db, Schema.object, Schema.transformers, Schema.Fields, Schema.Extension, Schema.Compress, Schema.Cache, Schema.AsyncWrites, Schema.ObjectIndex, Schema.coherent, Async.routineStarted, Async.Enable, Async.Threshold, Async.Timeout, objIndex.i, objIndex.uuids, objIndex.Fields, objIndex.ObjectIds, objIndex.otype, objIndex.ver, MapDom[string,uint64], MapVal[string,uint64], MapCard[string,uint64], MapDom[uint64,string], MapVal[uint64,string], MapCard[uint64,string], MapDom[string,*fieldIndex], MapVal[string,*fieldIndex], MapCard[string,*fieldIndex], fieldIndex.Name, fieldIndex.Cast, fieldIndex.Constraints, fieldIndex.Index, fieldIndex.objectIds, fieldIndex.nameSplit, fieldIndex.pos, MapDom[uint64,*indexedField], MapVal[uint64,*indexedField], MapCard[uint64,*indexedField], Elem[*indexedField], indexedField.Value, indexedField.ObjectId, Elem[string]
 
@@ -944,7 +948,7 @@ package sod
 //@ ensures [C01 getByUUID.absent] imp(has(db.schemas, T) && db.schemas[T].coherent && !has(db.schemas[T].ObjectIndex.uuids, uuid), err != nil && !isStorage(err))
 //@ ensures [C01 getByUUID.wf] wfDB(db)
 //@ ensures [C01 getByUUID.readonly] FSk == old(FSk) && FSc == old(FSc)
-//@ ensures [C01 getByUUID.others] db.schemas == old(db.schemas) && forallk(t, string, imp(t != T, has(db.schemas, t) == old(has(db.schemas, t)) && db.schemas[t] == old(db.schemas[t]))) && imp(old(has(db.schemas, T)), db.schemas[T] == old(db.schemas[T]))
+//@ ensures [C01 getByUUID.others] db.schemas == old(db.schemas) && forallk(t, string, imp(t != T, has(db.schemas, t) == old(has(db.schemas, t)) && db.schemas[t] == old(db.schemas[t]))) && imp(old(has(db.schemas, T)), has(db.schemas, T) && db.schemas[T] == old(db.schemas[T]))
 //@ modifies Object.uuid@in, MapDom[string,*Schema]@db.schemas, MapVal[string,*Schema]@db.schemas, MapCard[string,*Schema]@db.schemas, Async.routineStarted, Object.content@in, MapDom[string,*objectMap]@db.cache.m, MapVal[string,*objectMap]@db.cache.m, MapCard[string,*objectMap]@db.cache.m, MapDom[string,Object], MapVal[string,Object], MapCard[string,Object]
 
 //@ func (*DB).Exist
@@ -1002,3 +1006,176 @@ package sod
 //@ ensures [C04 Commit.ok] imp(err == nil, has(db.schemas, stypeOf(dyntype(o))) && committed(db, db.schemas[stypeOf(dyntype(o))]))
 //@ ensures [C01 Commit.wf] wfDB(db)
 //@ modifies Ghost.ACQ_H, Ghost.FSk, Ghost.FSc, MapDom[string,*Schema]@db.schemas, MapVal[string,*Schema]@db.schemas, MapCard[string,*Schema]@db.schemas, Async.routineStarted
+
+// ---- iteration ----------------------------------------------------------------
+
+//@ func newIterator
+//@ serves C01 C13
+//@ trusted "typeof(of) is reflection; the iterator remembers the dynamic type of 'of'"
+//@ requires of != nil
+//@ ensures result != nil && fresh(result) && result.db == db && result.i == 0 && !result.reverse && result.uuids == uuids && result.tdyn == dyntype(of)
+//@ modifies nothing
+//@ allocates iterator.db, iterator.t, iterator.i, iterator.reverse, iterator.uuids, iterator.tdyn
+
+//@ func (*iterator).object
+//@ serves C01 C13 C14
+//@ trusted "reflect.New(it.t): a fresh zero object of the iterator's type"
+//@ requires it != nil
+//@ ensures result != nil && fresh(result) && dyntype(result) == it.tdyn && result.uuid == ""
+//@ modifies nothing
+//@ allocates Object.content, Object.uuid, Object.stage
+
+//@ func (*iterator).len
+//@ serves C13 C01
+//@ requires it != nil
+//@ ensures result == len(it.uuids)
+//@ pure
+
+//@ func (*iterator).reversed
+//@ serves C13
+//@ requires it != nil
+//@ ensures [C13 reversed] result == it && it.reverse && it.i == len(it.uuids) - 1
+//@ modifies iterator.reverse@it, iterator.i@it
+
+//@ func (*iterator).next
+//@ serves C01 C08 C09 C13 C14
+//@ requires [wf] wfIter(it) && wfDB(it.db)
+//@ requires [C08 locked] H >= 1
+//@ requires [C09 lock-free] SL == 0 && HS == 0 && HM == 0
+//@ let k int := it.i
+//@ let inr bool := 0 <= it.i && it.i < len(it.uuids)
+//@ let T string := stypeOf(it.tdyn)
+//@ let db *DB := it.db
+//@ ensures [C13 next.eoi] imp(!inr, err == ErrEOI && o == nil && it.i == k)
+//@ ensures [C13 next.step] imp(inr, it.i == k + ite(it.reverse, -1, 1) && err != ErrEOI)
+//@ ensures [C01 next.stored] imp(inr && has(db.schemas, T) && db.schemas[T].coherent && has(db.schemas[T].ObjectIndex.uuids, it.uuids[k]), (err == nil && o != nil && o.uuid == it.uuids[k] && o.content == value(db, db.schemas[T], it.uuids[k])) || isStorage(err))
+//@ ensures [C01 C20 next.absent] imp(inr && has(db.schemas, T) && db.schemas[T].coherent && !has(db.schemas[T].ObjectIndex.uuids, it.uuids[k]), err != nil && !isStorage(err))
+//@ ensures [C01 next.same] it.uuids == old(it.uuids) && it.reverse == old(it.reverse) && it.db == db && it.tdyn == old(it.tdyn)
+//@ ensures [C01 next.wf] wfDB(db)
+//@ ensures [C01 next.readonly] FSk == old(FSk) && FSc == old(FSc)
+//@ ensures [C01 next.others] db.schemas == old(db.schemas) && forallk(t, string, imp(t != T, has(db.schemas, t) == old(has(db.schemas, t)) && db.schemas[t] == old(db.schemas[t]))) && imp(old(has(db.schemas, T)), has(db.schemas, T) && db.schemas[T] == old(db.schemas[T]))
+//@ modifies iterator.i@it, MapDom[string,*Schema]@it.db.schemas, MapVal[string,*Schema]@it.db.schemas, MapCard[string,*Schema]@it.db.schemas, Async.routineStarted, MapDom[string,*objectMap]@it.db.cache.m, MapVal[string,*objectMap]@it.db.cache.m, MapCard[string,*objectMap]@it.db.cache.m, MapDom[string,Object], MapVal[string,Object], MapCard[string,Object]
+//@ allocates Object.content, Object.uuid, Object.stage, objectMap.m, objectMap.RWMutex
+
+// ---- searches: result handling (C13) ---------------------------------------------
+
+//@ func newSearch
+//@ serves C02 C13
+//@ ensures result != nil && fresh(result) && result.db == db && result.object == o && result.fields == f && result.err == err && !result.reverse && result.limit == 18446744073709551615
+//@ modifies nothing
+//@ allocates Search.db, Search.object, Search.fields, Search.limit, Search.reverse, Search.err
+
+//@ func (*Search).Len
+//@ serves C02 C13
+//@ requires s != nil
+//@ ensures [C02 Len] result == len(s.fields)
+//@ pure
+
+//@ func (*Search).Limit
+//@ serves C13
+//@ requires s != nil
+//@ ensures [C13 Limit.sets] result == s && s.limit == limit
+//@ modifies Search.limit@s
+
+//@ func (*Search).Reverse
+//@ serves C13
+//@ requires s != nil
+//@ ensures [C13 Reverse.sets] result == s && s.reverse
+//@ modifies Search.reverse@s
+
+//@ func (*Search).Err
+//@ serves C02
+//@ requires s != nil
+//@ ensures result == s.err
+//@ pure
+
+//@ func (*Search).iterator
+//@ serves C01 C02 C08 C09 C13 C20
+//@ requires [wf] wfSearch(s) && imp(s.err == nil, wfDBbase(s.db))
+//@ requires [C08 locked] H >= 1
+//@ requires [C09 lock-free] SL == 0 && HS == 0 && HM == 0
+//@ let db *DB := s.db
+//@ let T string := stypeOf(dyntype(s.object))
+//@ ensures [C02 it.error] imp(s.err != nil, err == s.err && it == nil)
+//@ ensures [C13 it.fresh] imp(err == nil, it != nil && fresh(it) && it.db == db && it.i == 0 && !it.reverse && it.tdyn == dyntype(s.object) && len(it.uuids) == len(s.fields) && fresh(arr(it.uuids)))
+//@ ensures [C13 C20 it.resolves] imp(err == nil, has(db.schemas, T) && forall(k, 0, len(s.fields), it.uuids[k] == ite(has(db.schemas[T].ObjectIndex.ObjectIds, s.fields[k].ObjectId), db.schemas[T].ObjectIndex.ObjectIds[s.fields[k].ObjectId], "")))
+//@ ensures [C01 it.wf] imp(s.err == nil, wfDBbase(db) && imp(old(collsOK(db)), collsOK(db)))
+//@ ensures [C17 it.readonly] FSk == old(FSk) && FSc == old(FSc)
+//@ ensures [C01 it.others] imp(s.err == nil, db.schemas == old(db.schemas) && forallk(t, string, imp(t != T, has(db.schemas, t) == old(has(db.schemas, t)) && db.schemas[t] == old(db.schemas[t]))) && imp(old(has(db.schemas, T)), has(db.schemas, T) && db.schemas[T] == old(db.schemas[T])))
+//@ loop 1 invariant [bounds] (-1 <= rangeindex && rangeindex < len(s.fields)) || (rangeindex == -1 && len(s.fields) == 0)
+//@ loop 1 invariant [it] it != nil && fresh(it) && it.db == db && it.i == 0 && !it.reverse && it.tdyn == dyntype(s.object) && len(it.uuids) == rangeindex + 1 && fresh(arr(it.uuids))
+//@ loop 1 invariant [frame] preserved(Elem[string], iterator.uuids, iterator.db, iterator.i, iterator.reverse, iterator.tdyn)
+//@ loop 1 invariant [sofar] forall(k, 0, rangeindex + 1, it.uuids[k] == ite(has(db.schemas[T].ObjectIndex.ObjectIds, s.fields[k].ObjectId), db.schemas[T].ObjectIndex.ObjectIds[s.fields[k].ObjectId], ""))
+//@ loop 1 decreases len(s.fields) - rangeindex
+//@ modifies MapDom[string,*Schema]@s.db.schemas, MapVal[string,*Schema]@s.db.schemas, MapCard[string,*Schema]@s.db.schemas, Async.routineStarted
+//@ allocates Elem[string], iterator.db, iterator.t, iterator.i, iterator.reverse, iterator.uuids, iterator.tdyn
+
+//@ func (*Search).collect
+//@ serves C01 C08 C09 C13 C20
+//@ requires [wf] wfSearch(s) && imp(s.err == nil, wfDB(s.db))
+//@ requires [C08 locked] H >= 1
+//@ requires [C09 lock-free] SL == 0 && HS == 0 && HM == 0
+//@ let L uint64 := s.limit
+//@ let m int := len(s.fields)
+//@ let db *DB := s.db
+//@ let T string := stypeOf(dyntype(s.object))
+//@ ensures [C13 col.error] imp(s.err != nil, err == s.err && len(out) == 0)
+//@ ensures [C13 col.count] imp(err == nil, len(out) == ite(L < m, L, m))
+//@ ensures [C13 col.limit] imp(old(s.err) == nil, s.limit == L - len(out) && len(out) <= m)
+//@ ensures [C13 C20 col.order] imp(old(s.err) == nil && has(db.schemas, T) && db.schemas[T].coherent, forall(k, 0, len(out), imp(out[k] != nil, out[k].uuid == ite(has(db.schemas[T].ObjectIndex.ObjectIds, s.fields[ite(s.reverse, m-1-k, k)].ObjectId), db.schemas[T].ObjectIndex.ObjectIds[s.fields[ite(s.reverse, m-1-k, k)].ObjectId], ""))))
+//@ ensures [C13 col.non-nil] imp(old(s.err) == nil && has(db.schemas, T) && db.schemas[T].coherent, forall(k, 0, len(out), out[k] != nil))
+//@ ensures [C01 col.wf] imp(old(s.err) == nil, wfDB(db))
+//@ ensures [C17 col.readonly] FSk == old(FSk) && FSc == old(FSc) && s.fields == old(s.fields) && s.reverse == old(s.reverse)
+//@ loop 1 invariant [frame] preserved(Search.db, Search.object, Search.fields, Search.reverse, Search.err, iterator.uuids, iterator.reverse, iterator.db, iterator.tdyn, Elem[string], Elem[*indexedField], indexedField.ObjectId, MapDom[uint64,string], MapVal[uint64,string], objIndex.ObjectIds, Schema.ObjectIndex, Schema.coherent, Elem[Object]) && preservedAt(Search.limit, s) && preservedAt(MapDom[string,*Schema], db.schemas) && preservedAt(MapVal[string,*Schema], db.schemas) && preservedAt(MapCard[string,*Schema], db.schemas)
+//@ loop 1 invariant [it] it != nil && fresh(it) && it.db == db && it.tdyn == dyntype(s.object) && len(it.uuids) == m && it.reverse == s.reverse && fresh(arr(it.uuids)) && fresh(arr(out)) && s.err == nil && len(s.fields) == m
+//@ loop 1 let sch *Schema := db.schemas[T]
+//@ loop 1 invariant [table] has(db.schemas, T) && db.schemas[T] == sch
+//@ loop 1 invariant [ro] FSk == old(FSk) && FSc == old(FSc) && wfDB(db)
+//@ loop 1 invariant [count] 0 <= len(out) && len(out) <= m && s.limit == L - len(out) && len(out) <= L
+//@ loop 1 invariant [cursor] (err != ErrEOI && len(out) < m && it.i == ite(s.reverse, m - 2 - len(out), len(out) + 1)) || (err == ErrEOI && len(out) == m && o == nil)
+//@ loop 1 invariant [resolved] forall(k, 0, m, it.uuids[k] == ite(has(db.schemas[T].ObjectIndex.ObjectIds, s.fields[k].ObjectId), db.schemas[T].ObjectIndex.ObjectIds[s.fields[k].ObjectId], ""))
+//@ loop 1 invariant [collected] imp(db.schemas[T].coherent, forall(k, 0, len(out), out[k] != nil && out[k].uuid == it.uuids[ite(s.reverse, m-1-k, k)]))
+//@ loop 1 invariant [current] imp(err == nil && db.schemas[T].coherent, o != nil && o.uuid == it.uuids[ite(s.reverse, m-1-len(out), len(out))])
+//@ modifies Search.limit@s, iterator.i, iterator.reverse, MapDom[string,*Schema]@s.db.schemas, MapVal[string,*Schema]@s.db.schemas, MapCard[string,*Schema]@s.db.schemas, Async.routineStarted, MapDom[string,*objectMap], MapVal[string,*objectMap], MapCard[string,*objectMap], MapDom[string,Object], MapVal[string,Object], MapCard[string,Object]
+//@ allocates Elem[string], Elem[Object], iterator.db, iterator.t, iterator.i, iterator.reverse, iterator.uuids, iterator.tdyn, Object.content, Object.uuid, Object.stage, objectMap.m, objectMap.RWMutex
+
+//@ func (*Search).one
+//@ serves C01 C08 C09 C13
+//@ requires [wf] wfSearch(s) && imp(s.err == nil, wfDB(s.db))
+//@ requires [C08 locked] H >= 1
+//@ requires [C09 lock-free] SL == 0 && HS == 0 && HM == 0
+//@ let m int := len(s.fields)
+//@ let db *DB := s.db
+//@ let T string := stypeOf(dyntype(s.object))
+//@ ensures [C13 one.error] imp(old(s.err) != nil, err == old(s.err))
+//@ ensures [C13 one.none] imp(old(s.err) == nil && m == 0, err == ErrNoObjectFound && o == nil)
+//@ ensures [C13 one.first] imp(err == nil && has(db.schemas, T) && db.schemas[T].coherent, o != nil && o.uuid == ite(has(db.schemas[T].ObjectIndex.ObjectIds, s.fields[ite(s.reverse, m-1, 0)].ObjectId), db.schemas[T].ObjectIndex.ObjectIds[s.fields[ite(s.reverse, m-1, 0)].ObjectId], ""))
+//@ ensures [C01 one.wf] imp(old(s.err) == nil, wfDB(db))
+//@ ensures [C17 one.readonly] FSk == old(FSk) && FSc == old(FSc)
+//@ modifies Search.limit@s, iterator.i, iterator.reverse, MapDom[string,*Schema]@s.db.schemas, MapVal[string,*Schema]@s.db.schemas, MapCard[string,*Schema]@s.db.schemas, Async.routineStarted, MapDom[string,*objectMap], MapVal[string,*objectMap], MapCard[string,*objectMap], MapDom[string,Object], MapVal[string,Object], MapCard[string,Object]
+
+//@ func (*Search).Collect
+//@ serves C01 C08 C09 C13 C20
+//@ requires [wf] wfSearch(s) && s.db != nil && imp(s.err == nil, wfDB(s.db))
+//@ requires [C09 lock-free] lockFree()
+//@ let L uint64 := s.limit
+//@ let m int := len(s.fields)
+//@ let db *DB := s.db
+//@ let T string := stypeOf(dyntype(s.object))
+//@ ensures [C08 one-section] ACQ_H == old(ACQ_H) + 1
+//@ ensures [C13 Collect.count] imp(err == nil, len(out) == ite(L < m, L, m))
+//@ ensures [C13 C20 Collect.order] imp(old(s.err) == nil && has(db.schemas, T) && db.schemas[T].coherent, forall(k, 0, len(out), imp(out[k] != nil, out[k].uuid == ite(has(db.schemas[T].ObjectIndex.ObjectIds, s.fields[ite(s.reverse, m-1-k, k)].ObjectId), db.schemas[T].ObjectIndex.ObjectIds[s.fields[ite(s.reverse, m-1-k, k)].ObjectId], ""))))
+//@ ensures [C17 Collect.readonly] FSk == old(FSk) && FSc == old(FSc)
+//@ modifies Ghost.ACQ_H, Search.limit@s, iterator.i, iterator.reverse, MapDom[string,*Schema]@s.db.schemas, MapVal[string,*Schema]@s.db.schemas, MapCard[string,*Schema]@s.db.schemas, Async.routineStarted, MapDom[string,*objectMap], MapVal[string,*objectMap], MapCard[string,*objectMap], MapDom[string,Object], MapVal[string,Object], MapCard[string,Object]
+
+//@ func (*Search).One
+//@ serves C01 C08 C09 C13
+//@ requires [wf] wfSearch(s) && s.db != nil && imp(s.err == nil, wfDB(s.db))
+//@ requires [C09 lock-free] lockFree()
+//@ let m int := len(s.fields)
+//@ let db *DB := s.db
+//@ let T string := stypeOf(dyntype(s.object))
+//@ ensures [C08 one-section] ACQ_H == old(ACQ_H) + 1
+//@ ensures [C13 One.none] imp(old(s.err) == nil && m == 0, err == ErrNoObjectFound)
+//@ ensures [C13 One.first] imp(err == nil && has(db.schemas, T) && db.schemas[T].coherent, o != nil && o.uuid == ite(has(db.schemas[T].ObjectIndex.ObjectIds, s.fields[ite(s.reverse, m-1, 0)].ObjectId), db.schemas[T].ObjectIndex.ObjectIds[s.fields[ite(s.reverse, m-1, 0)].ObjectId], ""))
+//@ modifies Ghost.ACQ_H, Search.limit@s, iterator.i, iterator.reverse, MapDom[string,*Schema]@s.db.schemas, MapVal[string,*Schema]@s.db.schemas, MapCard[string,*Schema]@s.db.schemas, Async.routineStarted, MapDom[string,*objectMap], MapVal[string,*objectMap], MapCard[string,*objectMap], MapDom[string,Object], MapVal[string,Object], MapCard[string,Object]
